@@ -56,10 +56,14 @@ func ruleSummaryRendering(c *Ctx, rule string) {
 	// (b) node summary builder: the stored summary accumulates table[key] for every key of the handler map,
 	// unconditionally in the loop, starting from a value that does not depend on the old summary
 	b := a.NodeSummaryBuilder
+	if b == nil {
+		c.R.Add(rule, "pkg:tree", "summary=sum(table[key])-over-all-keys", "-", false, "no node method recomputes the method summary from the handler map (it is kept incrementally or by code of another shape): that the summary names exactly the keys of the handler map — after removing a method the node never had, after a failed registration — cannot be established")
+		return
+	}
 	var add *ssa.BinOp
 	an.AllInstrs(b, func(in ssa.Instruction) {
 		bo, ok := in.(*ssa.BinOp)
-		if !ok || bo.Op != token.ADD {
+		if !ok || (bo.Op != token.ADD && bo.Op != token.OR) { // the table's bits are distinct: + and | agree
 			return
 		}
 		for _, opnd := range []ssa.Value{bo.X, bo.Y} {
